@@ -536,12 +536,25 @@ void premature_stream_end(DFS::byte opcode)
 	    << ") instruction\n";
 }
 
-void copy_hfe(bool hfe3, const byte* begin, const byte* end,
-	      std::back_insert_iterator<std::vector<byte>> dest)
+// The state of copy_hfe() which has to survive from one 256-byte
+// block of a side's track data to the next: the blocks of the two
+// sides are interleaved in the file, but each side's data is one
+// continuous stream in which an opcode and its operand (or the bits
+// making up an output byte) can straddle a block boundary.
+struct HfeCopyState
 {
   int got_bits = 0;
   byte out = 0;
   byte this_op = 0;
+};
+
+void copy_hfe(bool hfe3, const byte* begin, const byte* end,
+	      std::back_insert_iterator<std::vector<byte>> dest,
+	      HfeCopyState& state)
+{
+  int& got_bits = state.got_bits;
+  byte& out = state.out;
+  byte& this_op = state.this_op;
   while (begin != end)
     {
       int skipbits = 0;
@@ -699,10 +712,6 @@ void copy_hfe(bool hfe3, const byte* begin, const byte* end,
 	  got_bits = 0;
 	}
     }
-  if (this_op)
-    {
-      premature_stream_end(this_op);
-    }
 }
 
 // Sort the sectors by address.
@@ -769,6 +778,7 @@ HfeFile::read_all_sectors(const std::vector<PicTrack>& lut,
       std::vector<byte> track_stream;
       track_stream.reserve(track_len_in_bytes / 2);
       auto begin_offset = side_block_size * side;
+      HfeCopyState copy_state;
       while (begin_offset < track_bytes_read)
 	{
 	  const auto end_offset = std::min(begin_offset + side_block_size,
@@ -793,7 +803,8 @@ HfeFile::read_all_sectors(const std::vector<PicTrack>& lut,
 	  copy_hfe(3 == hfe_version_,
 		   raw_data.data() + begin_offset,
 		   raw_data.data() + end_offset,
-		   std::back_inserter(track_stream));
+		   std::back_inserter(track_stream),
+		   copy_state);
 	  if (DFS::verbose)
 	    {
 #if ULTRA_VERBOSE
@@ -804,6 +815,10 @@ HfeFile::read_all_sectors(const std::vector<PicTrack>& lut,
 #endif
 	    }
 	  begin_offset += raw_data_block_size;
+	}
+      if (copy_state.this_op)
+	{
+	  premature_stream_end(copy_state.this_op);
 	}
 #if ULTRA_VERBOSE
       if (DFS::verbose)
